@@ -433,8 +433,8 @@ impl Check for C08 {
             real: &["h3 server Connection (accept filter, shutdown, last-accepted bookkeeping)", "h3 client Connection (GOAWAY processing) and SendRequest", "ConnectionInner::shutdown / process_goaway"],
             stub: &["QUIC transport (SimQuic)", "executor (simexec)", "peer (script; parses h3's control stream with the reference codecs)", "application (accept/shutdown loop, echo handler; client probes)"],
             assumptions: &["the sequential history of the accept task defines 'shown before / after a GOAWAY was written'", "requests racing with the delivery of a GOAWAY are unconstrained"],
-            quick_runs: 100_000,
-            thorough_runs: 5_000_000,
+            quick_runs: 600_000,
+            thorough_runs: 24_000_000,
         }
     }
     fn run(&self, ctx: &RunCtx) -> RunOut {
